@@ -2,7 +2,8 @@ package model
 
 import "math/rand"
 
-// MutateTopo derives a new configuration: grow, shrink, move a range to another pool, change node subnets.
+// MutateTopo derives a new configuration: grow, shrink, move a range to another pool, change node subnets, change the
+// VLAN of a pool that keeps its addresses (what a bound pod is told about an address it re-uses must follow).
 func MutateTopo(rng *rand.Rand, old *Topo) *Topo {
 	nt := &Topo{Nodes: old.Nodes}
 	for _, p := range old.Pools {
@@ -13,7 +14,9 @@ func MutateTopo(rng *rand.Rand, old *Topo) *Topo {
 	}
 	i := rng.Intn(len(nt.Pools))
 	p := &nt.Pools[i]
-	switch rng.Intn(4) {
+	switch rng.Intn(5) {
+	case 4: // same addresses, other VLAN
+		p.Vlan = (p.Vlan+1+uint16(rng.Intn(40)))%4094 + 1
 	case 0: // shrink: drop or trim a range
 		j := rng.Intn(len(p.Ranges))
 		if p.Ranges[j][0] < p.Ranges[j][1] && rng.Intn(2) == 0 {
